@@ -57,7 +57,11 @@ type system struct {
 var (
 	confKeys  = coord{name: "keys", kind: cEnum, labels: []string{"P", "V"}}
 	confNonce = coord{name: "nonce", kind: cEnum, labels: []string{"rand", "1", "N-1"}}
-	confGen   = coord{name: "gen", kind: cEnum, labels: []string{"default", "custom"}}
+	// confAux: whose Pedersen parameters the proof uses.  The protocols always use the verifier's own (over the
+	// verifier's Paillier modulus); the API also admits parameters over ANOTHER modulus (here: the prover's key), an
+	// unusual but legal configuration in which the two moduli a verifier handles must not be confused.
+	confAux = coord{name: "aux", kind: cEnum, labels: []string{"own", "foreign"}}
+	confGen = coord{name: "gen", kind: cEnum, labels: []string{"default", "custom"}}
 )
 
 func vr(t interface{}, name string) variant { return variant{name: name, val: reflect.ValueOf(t)} }
@@ -259,7 +263,7 @@ func systems() []*system {
 		}})
 
 	// ---- affg --------------------------------------------------------------------------------
-	l = append(l, &system{name: "affg", coords: []coord{cx, cy}, conf: []coord{confKeys, confNonce}, chunks: 6,
+	l = append(l, &system{name: "affg", coords: []coord{cx, cy}, conf: []coord{confKeys, confNonce, confAux}, chunks: 6,
 		build: func(pt point) *statement {
 			pr, ve := roles(pt)
 			xb, yb := bi(cx, pt, pr.pk.N()), bi(cy, pt, pr.pk.N())
@@ -271,7 +275,12 @@ func systems() []*system {
 			al := commonAlts()
 			al["Kv"], al["Dv"], al["Fp"] = ctAlts(Kv, ve.pk), ctAlts(Dv, ve.pk), ctAlts(Fp, pr.pk)
 			al["Aux"] = pedAlts(ve.ped)
-			return &statement{pub: &zkaffg.Public{Kv: Kv, Dv: Dv, Fp: Fp, Xp: actBig(xb, nil), Prover: pr.pk, Verifier: ve.pk, Aux: ve.ped},
+			aux := ve.ped
+			if pt["aux"] == "foreign" {
+				aux = pr.ped
+				al["Aux"] = pedAlts(aux)
+			}
+			return &statement{pub: &zkaffg.Public{Kv: Kv, Dv: Dv, Fp: Fp, Xp: actBig(xb, nil), Prover: pr.pk, Verifier: ve.pk, Aux: aux},
 				priv: &zkaffg.Private{X: x, Y: y, S: s, R: r}, alts: al}
 		},
 		prove: func(h *hash.Hash, st *statement) interface{} {
@@ -282,7 +291,7 @@ func systems() []*system {
 		}})
 
 	// ---- affp --------------------------------------------------------------------------------
-	l = append(l, &system{name: "affp", coords: []coord{cx, cy}, conf: []coord{confKeys, confNonce}, chunks: 6,
+	l = append(l, &system{name: "affp", coords: []coord{cx, cy}, conf: []coord{confKeys, confNonce, confAux}, chunks: 6,
 		build: func(pt point) *statement {
 			pr, ve := roles(pt)
 			xb, yb := bi(cx, pt, pr.pk.N()), bi(cy, pt, pr.pk.N())
@@ -295,7 +304,12 @@ func systems() []*system {
 			al := commonAlts()
 			al["Kv"], al["Dv"], al["Fp"], al["Xp"] = ctAlts(Kv, ve.pk), ctAlts(Dv, ve.pk), ctAlts(Fp, pr.pk), ctAlts(Xp, pr.pk)
 			al["Aux"] = pedAlts(ve.ped)
-			return &statement{pub: &zkaffp.Public{Kv: Kv, Dv: Dv, Fp: Fp, Xp: Xp, Prover: pr.pk, Verifier: ve.pk, Aux: ve.ped},
+			aux := ve.ped
+			if pt["aux"] == "foreign" {
+				aux = pr.ped
+				al["Aux"] = pedAlts(aux)
+			}
+			return &statement{pub: &zkaffp.Public{Kv: Kv, Dv: Dv, Fp: Fp, Xp: Xp, Prover: pr.pk, Verifier: ve.pk, Aux: aux},
 				priv: &zkaffp.Private{X: x, Y: y, S: s, Rx: rx, R: r}, alts: al}
 		},
 		prove: func(h *hash.Hash, st *statement) interface{} {
